@@ -4,7 +4,7 @@
     returns an error whatever happens, server.go:370); rerunner 2 a subscription reading slot 0, with a
     non-spawning invalidation handler. *)
 From Coq Require Import List ZArith String Bool Arith.
-From Thunder Require Import Lib.Json DiffMerge.Model Server.Model Server.Spec Server.Product Server.ProductDrive.
+From Thunder Require Import Lib.Json DiffMerge.Model Server.Model Server.Spec Server.Iface Server.Product Server.ProductDrive.
 From Thunder Require Reactive.Graph Reactive.Rerunner.
 Import ListNotations.
 Open Scope string_scope.
@@ -82,3 +82,22 @@ Proof.
   vm_compute in E. inversion E; subst; clear E.
   do 2 eexists. split; [reflexivity|]. repeat split; vm_compute; reflexivity.
 Qed.
+
+(** The interface trace of a product history, read off the reactive side (see [interface_agrees]). *)
+Fixpoint ptrace (w : world) (p : pstate) (h : list plabel) : list (nat * rxev) :=
+  match h with
+  | [] => []
+  | l :: t =>
+      match pstep w p l with
+      | Some p' =>
+          flat_map (fun r => opt_list r (rx_ev (RR.getr (snd p) r) (RR.getr (snd p') r))) (seq 0 (pool w))
+          ++ ptrace w p' t
+      | None => []
+      end
+  end.
+
+Lemma trace_example :
+  ptrace wx (pinit wx) h_end =
+  [(0, XPub false); (0, XPub true); (1, XFail); (1, XStop false); (2, XPub false); (2, XPub true);
+   (0, XPub true); (0, XStop true); (2, XStop true)].
+Proof. vm_compute. reflexivity. Qed.
